@@ -136,7 +136,11 @@ def gen_op(rng, root, depth, dflt, n, alphabet, structural=False):
         s = rng.randrange(0, n)
         e = rng.randrange(s, n + 2)
         writes = [[cc, rng.choice(POOL)] for cc in range(s, e) if rng.random() < 0.4] if sub_depth == 1 else []
-        return {"k": "denseref", "at": path, "s": s, "e": e, "step": rng.choice([1, 1, 2]), "w": writes, "bx": _bx(rng)}
+        step = rng.choice([1, 1, 2, -1, -2])
+        if step < 0:
+            # a descending walk: range(e - 1, s - 1, step) visits coordinates below elements it has just created
+            s, e = e - 1, s - 1
+        return {"k": "denseref", "at": path, "s": s, "e": e, "step": step, "w": writes, "bx": _bx(rng)}
     if k == "updcoords":
         return {"k": "updcoords", "at": path, "mul": rng.choice([1, 2, -1, -2]), "add": rng.choice([0, 1, -3, 4])}
     if k == "updpayloads" and sub_depth == 1:
